@@ -38,6 +38,7 @@ type PropSpec struct {
 	standinReports []map[string]any
 	regReports     []map[string]any
 	confirmed2     int
+	deadRets       []string
 }
 
 // RegTest: a replay against the real code. expect "fail": a recorded known finding (the replay fails while the defect
@@ -113,6 +114,26 @@ func loadFindings(path string) []Finding {
 		out = append(out, f)
 	}
 	return out
+}
+
+// allProved: no obligation of the unit failed (after a failed obligation the rest of the path is assumed away by
+// design, so reachability says nothing there - the failure itself is reported)
+func allProved(obls []*Obl) bool {
+	for _, o := range obls {
+		if o.Status != "proved" {
+			return false
+		}
+	}
+	return true
+}
+
+func hasPost(obls []*Obl) bool {
+	for _, o := range obls {
+		if o.Class == "post" || o.Class == "ipost" {
+			return true
+		}
+	}
+	return false
 }
 
 func loadLines(path string) map[string]bool {
@@ -425,7 +446,7 @@ func cmdCheck(args []string) {
 	}
 
 	// vacuity: assumptions of every unit must be satisfiable
-	var vacuous []string
+	var vacuous, noExit, deadRets []string
 	{
 		var mu sync.Mutex
 		var wg sync.WaitGroup
@@ -443,6 +464,18 @@ func cmdCheck(args []string) {
 					mu.Lock()
 					vacuous = append(vacuous, r.u.name)
 					mu.Unlock()
+				} else if hasPost(r.obls) && allProved(r.u.obls) {
+					if st := r.u.exitCover(work, 5*time.Second); st == "unsat" {
+						mu.Lock()
+						noExit = append(noExit, r.u.name)
+						mu.Unlock()
+					}
+					{
+						dr := r.u.deadReturns(work, 3*time.Second)
+						mu.Lock()
+						deadRets = append(deadRets, dr...)
+						mu.Unlock()
+					}
 				}
 			}(r)
 		}
@@ -501,6 +534,37 @@ func cmdCheck(args []string) {
 	}
 	for _, v := range vacuous {
 		fmt.Printf("ERROR: assumptions of %s are unsatisfiable (vacuous proof)\n", v)
+		exit = 3
+	}
+	// returns that no input reaches under the unit's assumptions: expected ones (instantiation-specific branches,
+	// defensive code, scope restrictions) are listed in claims/dead_returns.txt; a new one on unchanged code means an
+	// assumption has killed a path (path-level vacuity) and is reported
+	sort.Strings(deadRets)
+	baseDead := loadLines(filepath.Join(*verif, "claims", "dead_returns.txt"))
+	var newDead []string
+	for _, d := range deadRets {
+		key := strings.ReplaceAll(d, " ", "_")
+		if !baseDead[key] {
+			newDead = append(newDead, d)
+			fmt.Println("WARNING: unreachable return not in claims/dead_returns.txt (postconditions hold vacuously on that path):", d)
+		}
+	}
+	if *writeClaims {
+		cur := loadLines(filepath.Join(*verif, "claims", "dead_returns.txt"))
+		for _, d := range deadRets {
+			cur[strings.ReplaceAll(d, " ", "_")] = true
+		}
+		var ks []string
+		for k := range cur {
+			ks = append(ks, k)
+		}
+		sort.Strings(ks)
+		os.WriteFile(filepath.Join(*verif, "claims", "dead_returns.txt"), []byte("# returns unreachable under the assumptions of their unit on the unchanged tree (reviewed; see DESIGN 2.10)\n"+strings.Join(ks, "\n")+"\n"), 0o644)
+	}
+	spec.deadRets = deadRets
+	sort.Strings(noExit)
+	for _, v := range noExit {
+		fmt.Printf("ERROR: no return of %s is reachable under its assumptions: its postconditions would be discharged vacuously\n", v)
 		exit = 3
 	}
 	if nObl == 0 && exit == 0 {
@@ -668,6 +732,45 @@ func writeClaimFiles(verif, prop string, reports []*unitReport, findingFor func(
 }
 
 // vacuityCheck: the assumptions (facts) of the unit together with the entry must be satisfiable
+// exitCover: can the function return at all under its assumptions? If not, every postcondition of the unit is
+// discharged vacuously (a precondition that excludes everything, or an assumption that killed all paths).
+func (u *Unit) exitCover(dir string, timeout time.Duration) string {
+	if u.exitPc == "" || u.exitPc == "true" {
+		return "sat"
+	}
+	if u.exitPc == "false" {
+		return "unsat"
+	}
+	o := &Obl{Name: u.name + "#cover", Cond: "true", Goal: not(u.exitPc)}
+	q := u.buildQuery(o, false)
+	fn := filepath.Join(dir, sanitize(o.Name)+".smt2")
+	os.WriteFile(fn, []byte(q), 0o644)
+	r := runSolver(contextBackground(), solvers[0], fn, timeout)
+	return r.status
+}
+
+// deadReturns: returns of the function that no input reaches under the unit's assumptions
+func (u *Unit) deadReturns(dir string, timeout time.Duration) []string {
+	var out []string
+	for i, rp := range u.retPcs {
+		if rp[0] == "true" {
+			continue
+		}
+		st := "unsat"
+		if rp[0] != "false" {
+			o := &Obl{Name: fmt.Sprintf("%s#cover.ret%d", u.name, i), Cond: "true", Goal: not(rp[0])}
+			q := u.buildQuery(o, false)
+			fn := filepath.Join(dir, sanitize(o.Name)+".smt2")
+			os.WriteFile(fn, []byte(q), 0o644)
+			st = runSolver(contextBackground(), solvers[0], fn, timeout).status
+		}
+		if st == "unsat" {
+			out = append(out, fmt.Sprintf("%s return at %s", u.name, rp[1]))
+		}
+	}
+	return out
+}
+
 func (u *Unit) vacuityCheck(dir string, timeout time.Duration) string {
 	// first without the quantified facts (a sat answer is reliable there), then with all facts: an unsat answer
 	// of either query means that every obligation of the unit would be discharged vacuously
